@@ -42,6 +42,8 @@ inductive Exc where
 
 abbrev Res (α : Type) := Except Exc α
 
+deriving instance DecidableEq for Except
+
 /-! ### finite maps (association lists, first match wins; `set` keeps keys unique) -/
 
 abbrev Map := List (Bytes × Bytes)
@@ -189,6 +191,13 @@ def readLoose (d : Disk) (n : Name) : Option Val := if checkRefname n then d.fil
 
 def readRef (d : Disk) (n : Name) : Option Val := readRefOf (d.readLoose n) (d.packed.get n)
 
+/-- the value the compare-and-swap paths look at: `read_loose_ref(n)`, and only when that `is None`
+the packed value (`read_ref` falls back on any falsy loose value instead) -/
+def origRef (d : Disk) (n : Name) : Option Val :=
+  match d.readLoose n with
+  | some c => some c
+  | none => d.packed.get n
+
 def isFile (d : Disk) (p : Bytes) : Bool := (d.files.get p).isSome
 
 def addDirs (dirs : List Bytes) : List Bytes → List Bytes
@@ -224,9 +233,8 @@ def setIfEquals (d : Disk) (name : Name) (old : Option Val) (new : Val) : Res Bo
     else match d.lockMkdirs real with
       | .error e => (.error e, d)
       | .ok d1 =>
-        let orig : Option Val := match d1.readLoose real with | some c => some c | none => d1.packed.get real
-        if !casOk orig old then (.ok false, d1)
-        else if orig == some new then (.ok true, d1)     -- "Ref already has desired value"
+        if !casOk (d1.origRef real) old then (.ok false, d1)
+        else if d1.origRef real == some new then (.ok true, d1)     -- "Ref already has desired value"
         else match d1.commitFile real new with
           | .error e => (.error e, d1)
           | .ok d2 => (.ok true, d2)
@@ -275,8 +283,7 @@ def removeIfEquals (d : Disk) (name : Name) (old : Option Val) : Res Bool × Dis
   else match d.lockMkdirs name with
     | .error e => (.error e, d)
     | .ok d1 =>
-      let orig : Option Val := match d1.readLoose name with | some c => some c | none => d1.packed.get name
-      if !casOk orig old then (.ok false, d1)            -- `return False` inside `try`: no clean-up
+      if !casOk (d1.origRef name) old then (.ok false, d1)   -- `return False` inside `try`: no clean-up
       else if name ∈ d1.dirs then (.error .os, d1)       -- `os.remove` of a directory
       else
         let d2 := { d1 with files := d1.files.del name }
